@@ -232,6 +232,20 @@ Theorem C08_failed_call_logs_nothing :
 Proof. exact failed_call_logs_nothing. Qed.
 Print Assumptions C08_failed_call_logs_nothing.
 
+Theorem C08_failed_and_noop_log_nothing :
+  forall matchf applyf extractf projectf now,
+    (forall ds c ds' e,
+       single_write c -> ~ projected_in_session ds c ->
+       step matchf applyf extractf projectf now ds c = (ds', RErr e) ->
+       events (ds_cat ds') = events (ds_cat ds) /\ forall sid, routed ds' sid = routed ds sid) /\
+    (forall c g h q s u sk li up afs now0 c' g' tr,
+       txn_update matchf applyf extractf c g h q s u sk li up afs now0 = (c', g', inl tr) ->
+       t_modified tr = [] -> t_upserted tr = None -> c' = c) /\
+    (forall c g h q s sk li c' g' tr,
+       txn_delete matchf c g h q s sk li = (c', g', inl tr) -> t_matched tr = [] -> c' = c).
+Proof. exact failed_and_noop_log_nothing. Qed.
+Print Assumptions C08_failed_and_noop_log_nothing.
+
 Theorem C08_update_noop_logs_nothing :
   forall matchf applyf extractf c g h q s u sk li up afs now c' g' tr,
     txn_update matchf applyf extractf c g h q s u sk li up afs now = (c', g', inl tr) ->
